@@ -9,6 +9,7 @@ import (
 	"strings"
 	"time"
 
+	"github.com/xelaj/mtproto/zverif/hs"
 	"github.com/xelaj/mtproto/zverif/ref/rpcsrv"
 	"github.com/xelaj/mtproto/zverif/ref/tlw"
 	"github.com/xelaj/mtproto/zverif/sched"
@@ -219,6 +220,36 @@ func main() {
 		scs = append(scs, sc)
 		allow[sc.Name] = true
 	}
+	// freshly keyed session: the requests of the key exchange were registered like any other, so their msg_ids
+	// are "already answered ids" of this process; a server message addressed to one of them must be as
+	// harmless as one for an unknown id
+	for k := 0; k < 3; k++ {
+		k := k
+		hsID := func(x *sess.World) int64 {
+			n := 0
+			for _, f := range x.Srv.Frames {
+				if f.Plain {
+					if n == k {
+						return f.Msg.MsgID
+					}
+					n++
+				}
+			}
+			return int64(1600000000)<<32 | 0x7770
+		}
+		for _, e := range []ev{
+			{name: fmt.Sprintf("rpc_result(key-exchange-request#%d)", k), content: true, body: func(x *sess.World) []byte { return rpcsrv.ResultBody(hsID(x), 5, rpcsrv.KObj, false) }},
+			{name: fmt.Sprintf("bad_server_salt(key-exchange-request#%d)", k), body: func(x *sess.World) []byte {
+				return w().U32(0xedab447b).I64(hsID(x)).I32(1).I32(48).I64(x.Srv.Salt).B
+			}},
+		} {
+			base := scenarioFor([]ev{e})
+			f := hs.Scenario("F"+base.Name[1:], hs.Base(), 5)
+			f.Callers, f.Handler, f.Setup = base.Callers, base.Handler, base.Setup
+			scs = append(scs, f)
+			allow[f.Name] = true
+		}
+	}
 	run.Set("history_depth", H)
 	run.Set("histories", len(hists))
 	run.Set("alphabet", func() []string {
@@ -233,7 +264,11 @@ func main() {
 	(&sess.XSpec{Run: run, Scenarios: scs, Budget: budget, Batch: true, FreeSet: run.ID,
 		Bounds: func(sc *sess.Scenario) sched.Bounds {
 			// each further event of a history costs one delay
-			return sched.Bounds{Preemptions: -1, Delays: max(D-strings.Count(sc.Name, " ; "), 0), EnvDev: 0}
+			d := max(D-strings.Count(sc.Name, " ; "), 0)
+			if strings.HasPrefix(sc.Name, "F[") {
+				d = max(d-1, 0) // every execution repeats the key exchange
+			}
+			return sched.Bounds{Preemptions: -1, Delays: d, EnvDev: 0}
 		},
 		Judge:                  judge,
 		NonTrivial:             func(x *sess.World) bool { return len(x.Srv.Queue) == 0 },
